@@ -536,9 +536,61 @@ def check_add_bit(ctx):
            sig="add-bit-delegates")
 
 
+def check_swap_handler(ctx, top):
+    """R13.13: a swap of two qubit (bit) wires exchanges the two registers at that position of the list (or, once a classical post-processing exists, is applied to it at the wire position)"""
+    q = TK + ".to_tk"
+    loop = next((s for s in top.body if isinstance(s, ast.For) and "layers" in ast.unparse(s.iter)), None)
+    ctx.need(loop is not None and isinstance(loop.target, ast.Tuple) and len(loop.target.elts) == 3, "to_tk has no loop over the layers")
+    N = {loop.target.elts[0].id: "left", loop.target.elts[1].id: "box"}
+    arm = None
+    cur = next((s for s in loop.body if isinstance(s, ast.If)), None)
+    while cur is not None:
+        if ast.unparse(cur.test) == "isinstance(%s, Swap)" % loop.target.elts[1].id:
+            arm = cur
+            break
+        cur = cur.orelse[0] if len(cur.orelse) == 1 and isinstance(cur.orelse[0], ast.If) else None
+    ctx.need(arm is not None and len(arm.body) == 1 and isinstance(arm.body[0], ast.If), "to_tk: the Swap handler is not a chain over the two kinds of wires")
+    kinds = {}
+    c = arm.body[0]
+    while c is not None:
+        t = shape.rename(c.test, N)
+        kinds[ast.unparse(t)] = c
+        last = c
+        c = c.orelse[0] if len(c.orelse) == 1 and isinstance(c.orelse[0], ast.If) else None
+    qb, bb = kinds.get("box == Swap(qubit, qubit)"), kinds.get("box == Swap(bit, bit)")
+    ctx.ob("R13.13", q + ":Swap:kinds", qb is not None and bb is not None, found=sorted(kinds), required="one case for two qubit wires, one for two bit wires (a bit and a qubit live in different registers)", mod=TK, node=arm,
+           sig="swap-kinds")
+    tail = last.orelse
+    ctx.ob("R13.13", q + ":Swap:mixed", all(isinstance(s, (ast.Continue, ast.Pass)) for s in tail), found=[ast.unparse(s)[:40] for s in tail] or "nothing", required="a swap of a bit and a qubit changes no register",
+           mod=TK, node=arm, sig="swap-mixed")
+    if qb is not None:
+        shape.match_stmts(ctx, "R13.13", q + ":Swap:qubits", qb.body, ["off = left.count(qubit)", "swap(qubits[off], qubits[off + 1])"], N, mod=TK, node=qb, sig="swap-qubits", exact=True,
+                          required="the registers of the two wires at the number of qubit wires to the left are exchanged")
+    if bb is not None:
+        inner_if = next((s for s in bb.body if isinstance(s, ast.If)), None)
+        shape.match_stmts(ctx, "R13.13", q + ":Swap:bits:offset", [s for s in bb.body if isinstance(s, ast.Assign)], ["off = left.count(bit)"], N, mod=TK, node=bb, sig="swap-bits-offset", exact=True)
+        ctx.need(inner_if is not None, "to_tk: the bit swap does not distinguish an existing post-processing")
+        shape.match(ctx, "R13.13", q + ":Swap:bits:test", inner_if.test, "tk_circ.post_processing", N, mod=TK, node=inner_if, sig="swap-bits-test")
+        shape.match_stmts(ctx, "R13.13", q + ":Swap:bits:post-processing", inner_if.body, ["right = Id(tk_circ.post_processing.cod[off + 2:])", "tk_circ.post_process(Id(bit ** off) @ Swap(bit, bit) @ right)"], N,
+                          mod=TK, node=inner_if, sig="swap-bits-pp", exact=True, required="the swap is applied to the outputs of the post-processing at the wire position (identities on both sides)")
+        shape.match_stmts(ctx, "R13.13", q + ":Swap:bits:registers", inner_if.orelse, ["swap(bits[off], bits[off + 1], unit_factory=Bit)"], N, mod=TK, node=inner_if, sig="swap-bits-registers", exact=True,
+                          required="without post-processing the two bit registers are exchanged")
+    sw = inner(ctx, top, "swap")
+    ctx.analysed(TK + ".to_tk.swap")
+    a = [x.arg for x in sw.args.args]
+    d = dict(zip(a[len(a) - len(sw.args.defaults):], sw.args.defaults))
+    ctx.ob("R13.13", q + ".swap:default", len(a) == 3 and ast.unparse(d.get(a[2], ast.Constant(None))) == "Qubit", found=ast.unparse(sw.args), required="swap(i, j, unit_factory=Qubit)", mod=TK, node=sw, sig="swap-default")
+    if len(a) == 3:
+        shape.match_stmts(ctx, "R13.13", q + ".swap", sw.body, ["old, tmp, new = unit_factory(i), unit_factory('tmp', 0), unit_factory(j)", "tk_circ.rename_units({old: tmp})", "tk_circ.rename_units({new: old})",
+                                                              "tk_circ.rename_units({tmp: new})"], {a[0]: "i", a[1]: "j", a[2]: "unit_factory"}, mod=TK, node=sw, sig="swap-helper", exact=True,
+                          required="the two units are exchanged through a temporary unit: i -> tmp, j -> i, tmp -> j")
+
+
 def check(ctx):
     m = ctx.model
     top = m.func(TK + ".to_tk")
+    ctx.rule("R13.13", "swaps in to_tk: two qubit (bit) wires exchange their registers through a temporary unit; with a classical post-processing the swap is applied to its outputs at the wire position")
+    check_swap_handler(ctx, top)
     fn = m.func(TK + ".from_tk")
     check_prepare(ctx, top)
     check_bit_positions(ctx, top)
